@@ -94,6 +94,10 @@ type TableSpec struct {
 	Text      string
 }
 
+type CondDecl struct {
+	Type, Field, MuField string
+}
+
 type Guarded struct {
 	Type, Field, MuType, MuField string
 }
@@ -115,6 +119,7 @@ type ContractSet struct {
 	Guarded   []Guarded
 	Monitors  []*Monitor
 	TypeInvs  map[string][]*Clause
+	Conds     []CondDecl // cond T.f uses T.mu
 	Tables    map[string]*TableSpec // package-level constant lookup tables
 	OpaqueDiv map[string]bool // divisors for which signed division is abstracted (axiomatised)
 	PureVars  map[string]bool // func-typed vars assumed side-effect free
@@ -132,7 +137,7 @@ var clauseKW = map[string]bool{"arith": true, "ghost": true, "pure": true, "opaq
 	"requires": true, "ensures": true, "ensures_panic": true, "modifies": true, "loop": true, "invariant": true,
 	"use": true, "guarded": true, "monitor": true, "typeinv": true, "maypanic": true, "nopanic": true, "trusted": true,
 	"purevar": true, "cover": true, "cases": true, "assumption": true, "property": true, "atomic": true, "inline": true,
-	"havoc": true, "ghostfield": true, "opt": true, "end": true, "opaquediv": true, "reveal": true, "auto": true, "table": true, "exit": true}
+	"havoc": true, "ghostfield": true, "opt": true, "end": true, "opaquediv": true, "reveal": true, "auto": true, "table": true, "exit": true, "cond": true}
 
 type rawLine struct {
 	text string
@@ -549,6 +554,18 @@ func (cs *ContractSet) Load(path string, commentOnly bool) error {
 				return fail(l, "guarded T.f by T.mu")
 			}
 			cs.Guarded = append(cs.Guarded, Guarded{a[0], a[1], b[0], b[1]})
+		case "cond":
+			// cond T.f uses T.mu
+			f := strings.Fields(rest)
+			if len(f) != 3 || f[1] != "uses" {
+				return fail(l, "cond T.f uses T.mu")
+			}
+			a := strings.SplitN(f[0], ".", 2)
+			b := strings.SplitN(f[2], ".", 2)
+			if len(a) != 2 || len(b) != 2 || a[0] != b[0] {
+				return fail(l, "cond T.f uses T.mu")
+			}
+			cs.Conds = append(cs.Conds, CondDecl{a[0], a[1], b[1]})
 		case "monitor":
 			curFn, curLoop, curLemma = nil, nil, nil
 			a := strings.SplitN(strings.TrimSuffix(strings.TrimSpace(rest), ":"), ".", 2)
